@@ -160,13 +160,22 @@ def c06(tier, seed, case=None):
     v = _mk('C06', tier, seed, 'exploration',
             'the complete 13 x 14 matrix (requested concrete type S, record type T) x {read_as, iter_shapes_as (with/without '
             'index), read_nth_shape_as for every i, read_shapes_as(path)} against convert_shapes_to_vec_of(read()), over several '
-            'files per T (writer output; hand-laid NullShape records); identity/shapetype of every variant; bulk conversion with '
+            'files per T (writer output; hand-laid NullShape records; homogeneous foreign-layout files from the reference encoder: unclosed '
+            'rings, absent M blocks, empty parts, trailing bytes); identity/shapetype of every variant; bulk conversion with '
             'the odd shape at every position. distinct = (S, T, api) cells + (S, T, len, pos) bulk cases; all non-trivial',
             exhaustive=True)
+    import os
+    import gen_c03
+    from driver import OUT
+    gen_dir = os.path.join(OUT, 'C06', tier, 'foreign')
+    _rmtree(gen_dir)
+    gen_c03.generate(gen_dir, seed, 40 if tier == 'quick' else 400)
     for prof in _profiles(tier):
-        v.add_run(run_engine('C06', 'c06', prof, tier, seed, case=case))
+        v.add_run(run_engine('C06', 'c06', prof, tier, seed, opts={'foreign': gen_dir}, case=case))
     if tier == 'thorough' and not case:
         v.add_run(run_miri('C06', 'c06', tier, seed))
+    if not v.violations:
+        _rmtree(gen_dir)
     v.extra['exhaustive_scope'] = 'the (S,T) type matrix and the 14 variants are enumerated completely; shapes inside the files are sampled'
     return v
 
@@ -177,7 +186,8 @@ C07_RULE = ('one case = one hostile input (.shp and optionally .shx) derived fro
             'by k*2^28..2^31 so that i32 size arithmetic wraps back to the declared length, (thorough) all pairs of count/length '
             'fields; (b) truncation at every length, extension by 1..64 bytes; (c) random bit flips; (d) random bytes behind a valid '
             'file code; (e) counts 2^4..2^31 with mutually consistent lengths and no data behind them, index headers declaring 2^k '
-            'entries. Every reader entry point (new/with_shx, every next() of iter_shapes / iter_shapes_as, shape_count, read_nth_shape, '
+            'entries; (f) the same with real points / part offsets / index entries present up to amounts straddling powers of two '
+            '(2^8-1 .. 2^13+1, thorough 2^15+1) before the data runs out. Every reader entry point (new/with_shx, every next() of iter_shapes / iter_shapes_as, shape_count, read_nth_shape, '
             'seek, a second iteration, read, read_as for rotating types) runs under catch_unwind + panic hook + an allocation window; '
             'iterations are bounded by len(shp)+len(shx)+2 items. distinct = indices of the enumeration (each a different input); all '
             'non-trivial')
